@@ -381,57 +381,107 @@ def backend_primitive(ctx, rule: str):
 
 def library_returns(ctx):
     P = ctx.prog
+    lib = P.cls(LIB)
     # get_authorization_ticket_by_hashedid8: exact-key lookup
     g = P.func(f"{LIB}.get_authorization_ticket_by_hashedid8")
     fl = ctx.flows.get(g)
+    key = g.params[1]
     for j, (k, s, st) in enumerate([e for e in fl.exits if e[0] == "return"]):
-        u = norm(pretty(unparse(fl.expand(s.value, st))))
-        if u == "None":
-            continue
-        ok = u == "self.known_authorization_tickets[hashedid8]"
-        ctx.ob("C03.library-returns-verified", g.short(), f"return#{j}", ok,
-               f"digest lookup returns `{u[:100]}`; must be the exact-key entry known_authorization_tickets[hashedid8] "
-               "(a partial / suffix match lets an altered signer digest resolve to a known ticket)",
-               f"{g.module.rel}:{s.lineno}")
+        for a_i, x in enumerate(fl.alternatives(s.value, st) if s.value is not None else [ast.Constant(None)]):
+            if isinstance(x, ast.Constant) and x.value is None:
+                continue
+            ok = sem.same(x, f"self.known_authorization_tickets[{key}]") or sem.same(x, f"self.known_authorization_tickets.get({key})")
+            ctx.ob("C03.library-returns-verified", g.short(), f"return#{j}" + (f"/def{a_i}" if a_i else ""), ok,
+                   f"digest lookup returns `{show(x)[:100]}`; must be the exact-key entry known_authorization_tickets[{key}] "
+                   "(a partial / suffix match lets an altered signer digest resolve to a known ticket)",
+                   f"{g.module.rel}:{s.lineno}")
     v = P.func(f"{LIB}.verify_sequence_of_certificates")
     fl = ctx.flows.get(v)
+    certs, backend = v.params[1], v.params[2]
+    cert_cls = P.cls("security.certificate.Certificate")
+    from_dict = cert_cls.find_method("from_dict")
+    cert_verify = cert_cls.find_method("verify")
+    get_issuer = lib.find_method("get_issuer_certificate")
+
+    def parsed_cert(e):
+        """{'certificate': expr, 'issuer': expr|None} when e is Certificate.from_dict(...)"""
+        if isinstance(e, ast.Call) and from_dict is not None and from_dict in P.call_targets(v, e, count=False):
+            b = bind_call(from_dict, e)
+            return {"certificate": b.get("certificate"), "issuer": b.get("issuer")}
+        return None
+
+    def verified(e, st) -> bool:
+        """must-fact: <e>.verify(<the caller's backend>) returned true"""
+        for f in st.facts:
+            if f.kind == "cond" and f.pol and isinstance(f.xnode, ast.Call) and isinstance(f.xnode.func, ast.Attribute) \
+                    and f.xnode.func.attr == "verify" and unparse(f.xnode.func.value) == unparse(e):
+                b = bind_call(cert_verify, f.xnode) if cert_verify is not None else {}
+                arg = b.get(cert_verify.params[1]) if cert_verify is not None and len(cert_verify.params) > 1 else None
+                if isinstance(arg, ast.Name) and arg.id == backend:
+                    return True
+        return False
+
+    def not_none(e, st) -> bool:
+        w = sem.atoms(ast.Compare(left=e, ops=[ast.IsNot()], comparators=[ast.Constant(None)]), True)[0]
+        return any(f.kind == "cond" and w in sem.atoms(f.xnode, f.pol) for f in st.facts)
+
+    def issuer_vouched(e, st, depth=3) -> tuple:
+        """The issuer object comes out of the library's own dictionaries (directly, through get_issuer_certificate with a
+        None test, or as an in-message certificate that itself verified under such an issuer)."""
+        if e is None or depth <= 0:
+            return False, "no issuer"
+        if isinstance(e, ast.Subscript) and dotted(e.value) in ("self.known_root_certificates", "self.known_authorization_authorities"):
+            return True, "library dictionary entry"
+        if isinstance(e, ast.Call) and get_issuer is not None and get_issuer in P.call_targets(v, e, count=False):
+            return (True, "get_issuer_certificate, tested against None") if not_none(e, st) else \
+                (False, "get_issuer_certificate result not tested against None")
+        pc = parsed_cert(e)
+        if pc is not None:
+            if not verified(e, st):
+                return False, "in-message issuer certificate not verified"
+            return issuer_vouched(pc["issuer"], st, depth - 1)
+        return False, f"`{show(e)[:60]}` is not taken from the library"
+
     n = 0
     for j, (k, s, st) in enumerate([e for e in fl.exits if e[0] == "return"]):
-        x = fl.expand(s.value, st)
-        u = norm(pretty(unparse(x)))
-        if u == "None":
-            continue
-        n += 1
-        loc = f"{v.module.rel}:{s.lineno}"
-        conds = {norm(f.xkey): f.pol for f in st.facts if f.kind == "cond"}
-        if re.fullmatch(r"self\.known_authorization_tickets\[.*\.as_hashedid8\(\)\]", u):
-            ctx.ob("C03.library-returns-verified", v.short(), f"return#{j}:known", True, "returns an already admitted ticket", loc)
-            continue
-        if u.startswith("self.verify_sequence_of_certificates("):
-            ctx.ob("C03.library-returns-verified", v.short(), f"return#{j}:recursive", True, "delegates to the shorter chain", loc)
-            continue
-        # freshly built certificate: must have verified, with an issuer taken from the library
-        raw = unparse(s.value)
-        tokv = norm(unparse(fl.expand(ast.parse(raw, mode="eval").body, st))) if re.fullmatch(r"\w+", raw) else None
-        verified = any(pol and re.fullmatch(re.escape(norm(unparse(x))) + r"\.verify\((backend=)?backend\)", k)
-                       for k, pol in conds.items())
-        ctx.ob("C03.library-returns-verified", v.short(), f"return#{j}:verified", verified,
-               f"returns `{u[:110]}` " + ("after .verify(backend) succeeded" if verified else
-                                          "WITHOUT an established `.verify(backend)` on every path"), loc)
-        m = re.search(r"issuer=(.+?)\)$", u)
-        issuer = m.group(1) if m else ""
-        from_lib = issuer.startswith("self.get_issuer_certificate(") or issuer.startswith("self.known_root_certificates[") \
-            or "issuer=self.known_root_certificates[" in issuer
-        issuer_verified = True
-        if issuer.startswith("Certificate.from_dict("):
-            issuer_verified = any(pol and k.startswith(issuer) and ".verify(" in k for k, pol in conds.items())
-            from_lib = "issuer=self.known_root_certificates[" in issuer
-        ctx.ob("C03.library-returns-verified", v.short(), f"return#{j}:issuer-from-library", from_lib and issuer_verified,
-               f"issuer of the returned ticket is `{issuer[:110]}`; must come from the library's own dictionaries (and, for an "
-               f"in-message AA, have verified under a known root)", loc)
-        if "get_issuer_certificate" in issuer:
-            ctx.ob("C03.library-returns-verified", v.short(), f"return#{j}:issuer-not-none",
-                   any(k.endswith("isNone") and pol is False and "get_issuer_certificate" in k for k, pol in conds.items()),
-                   "issuer lookup result tested against None", loc)
+        for a_i, x in enumerate(fl.alternatives(s.value, st) if s.value is not None else [ast.Constant(None)]):
+            if isinstance(x, ast.Constant) and x.value is None:
+                continue
+            n += 1
+            tag = f"return#{j}" + (f"/def{a_i}" if a_i else "")
+            loc = f"{v.module.rel}:{s.lineno}"
+            if isinstance(x, ast.Subscript) and dotted(x.value) == "self.known_authorization_tickets":
+                kx = x.slice
+                member = sem.atoms(ast.Compare(left=kx, ops=[ast.In()], comparators=[src("self.known_authorization_tickets.keys()")]), True) + \
+                    sem.atoms(ast.Compare(left=kx, ops=[ast.In()], comparators=[src("self.known_authorization_tickets")]), True)
+                fs = sem.facts_of_state(st)
+                recv, steps = (kx.func.value, kx.func.attr) if isinstance(kx, ast.Call) and isinstance(kx.func, ast.Attribute) else (None, None)
+                pc = parsed_cert(recv) if recv is not None else None
+                of_msg = steps == "as_hashedid8" and pc is not None and pc["certificate"] is not None and \
+                    sem.same(pc["certificate"], f"{certs}[0]")
+                ctx.ob("C03.library-returns-verified", v.short(), f"{tag}:known", of_msg and any(a in fs for a in member),
+                       f"returns the admitted ticket stored under `{show(kx)[:80]}`; must be the HashedId8 of the message's own "
+                       "certificate, found in known_authorization_tickets", loc)
+                continue
+            if isinstance(x, ast.Call) and v in P.call_targets(v, x, count=False):
+                b = bind_call(v, x)
+                ctx.ob("C03.library-returns-verified", v.short(), f"{tag}:recursive",
+                       isinstance(b.get(backend), ast.Name) and b[backend].id == backend,
+                       "delegates to the verification of the shorter chain with the caller's backend", loc)
+                continue
+            # freshly built certificate: must have verified, with an issuer taken from the library
+            pc = parsed_cert(x)
+            is_ver = pc is not None and verified(x, st)
+            ctx.ob("C03.library-returns-verified", v.short(), f"{tag}:verified", is_ver,
+                   f"returns `{show(x)[:110]}` " + ("after .verify(backend) succeeded" if is_ver else
+                                                    "WITHOUT an established `.verify(backend)` on every path"), loc)
+            ok_iss, why = issuer_vouched(pc["issuer"], st) if pc is not None else (False, "not a parsed certificate")
+            ctx.ob("C03.library-returns-verified", v.short(), f"{tag}:issuer-from-library", ok_iss,
+                   f"issuer of the returned ticket is `{show(pc['issuer'])[:110] if pc else '?'}`: {why}; it must come from the library's own "
+                   f"dictionaries (and, for an in-message AA, have verified under a known root)", loc)
+            ctx.ob("C03.library-returns-verified", v.short(), f"{tag}:own-certificate",
+                   pc is not None and pc["certificate"] is not None and sem.same(pc["certificate"], f"{certs}[0]"),
+                   "the returned ticket is parsed from the first certificate of the message's chain", loc)
     if n < 3:
         raise AnalysisError(f"C03: verify_sequence_of_certificates has {n} non-None returns (confirmed: 4)")
+    ctx.floor("C03.library-returns-verified", 9)
